@@ -31,7 +31,8 @@ RULE = ('Generated positive equity curves of length 2-600 on business-day date i
         'same dates is supplied and the benchmark section is checked against its own oracle. Non-trivial = >= 1 strictly under-water '
         'date, >= 2 calendar months and not monotone-up.'
         " Round-10 reach: a third of the frames carry `Cash` and `Positions` columns around `Equity` (tear sheet and JSON statistics)."
-        " Round-11 reach: one case in fifty has 5001 or 5400 observations.")
+        " Round-11 reach: one case in fifty has 5001 or 5400 observations."
+        " Round-13 reach: a curve without a single negative return must report a NaN Sortino.")
 ASSUMPTIONS = [
     'positive equity, business-day date index (datetime.date) as produced by get_equity_curve()',
     'Sharpe/Sortino compared only when their denominator is well conditioned; Sortino only with >= 2 negative returns',
@@ -316,6 +317,12 @@ def run_case(case):
                 raise Violation('Sortino %r, sqrt(%s) x mean / population deviation of negative returns = %r' % (
                     float(s['sortino']), P, want))
             cls.append('sortino_checked')
+        if not neg and n >= 2:
+            # no losing period at all: the set of negative returns is empty and its deviation - hence the ratio - undefined
+            sv = float(s['sortino'])
+            if not math.isnan(sv):
+                raise Violation('Sortino %r for a curve without a single negative return (the deviation of no losses is undefined)' % sv)
+            cls.append('no_negative_return')
         if len(neg) == 1 and abs(math.fsum(r) / n) > 1e-12:
             # a single losing day: the deviation of the negative returns is 0, the ratio is infinite (sign of the mean)
             sv = float(s['sortino'])
